@@ -294,6 +294,11 @@ func (r *reader) readChunk() {
 	// We have a MTrk
 	if chunk.Type() == "MTrk" {
 		r.log("is track chunk")
+		if int(r.processedTracks)+1 >= len(r.Tracks) {
+			// e.g. a header that declares no tracks at all
+			r.error = fmt.Errorf("found more tracks than the %v declared in the header", r.numTracks)
+			return
+		}
 		r.processedTracks++
 		r.expectChunk = false
 		// we are done, lets go to the track events
